@@ -401,7 +401,9 @@ Lemma schedule_k_frame k : forall st st' r, schedule_k o k st = (st', r) ->
 Proof.
   induction k as [|k IH]; intros st st' r H; simpl in H.
   - injection H as <- _. repeat split; auto. apply ext_refl.
-  - destruct (schedule_new_task o st) as [st1 r1] eqn:E1. apply schedule_new_task_frame in E1.
+  - destruct (ckpt_missing o st) as [j|].
+    { injection H as <- _. repeat split; auto. exists [ESSuggest (s_ntrials st) (o_sug o (s_ns st))]. auto. }
+    destruct (schedule_new_task o st) as [st1 r1] eqn:E1. apply schedule_new_task_frame in E1.
     destruct E1 as (A1 & B1 & C1 & D1).
     destruct r1; [apply IH in H; destruct H as (A & B & C & D); repeat split; try congruence; eapply ext_trans; eauto| |];
       injection H as <- _; auto.
